@@ -5,7 +5,7 @@
    gates (verifhook.Gate) and real timers, and the recorded trace is validated against RequestLifecycle.
      cluster : how many refused hosts precede the scripted upstream (request-round-robin order), or "all" refused
      script  : behaviour of the scripted upstream per arrival (last repeats):
-               ok | s503 | close | hang | gate (answers 200 when the driver says) | gateclose
+               ok | s503 | close | hang | gate (answers 200 when the driver says) | gs503 (answers 503 when the driver says) | gateclose
      try     : per-try timeout configured (40 ms) besides the global timeout (120 ms)
      hold    : gate point at which one goroutine of the proxy is held ...
      during  : ... while this happens completely:  gtimer | ptimer | upresp | upclose | clientreset | none
@@ -63,7 +63,20 @@ Cases == { c \in [cluster : Clusters, script : Scripts, try : BOOLEAN,
 StaleTimer(t) == << "hold:ds.pe#6", "hold:ds." \o t \o ".fire", "hold:ds.upreset.retry", "arrive:ds.pe", "arrive:ds." \o t \o ".fire",
                     "release:ds.pe", "arrive:ds.upreset.retry", "release:ds." \o t \o ".fire", "await:ds." \o t \o ".done",
                     "release:ds.upreset.retry" >>
-StepCases == { [cluster |-> cl, script |-> sc, try |-> (t = "ptimer"), hold |-> "none", during |-> "none", hold2 |-> "none",
+(* Read off the TLC counterexample of DownstreamImpl with defect "DropRetryStateWithoutRelease" (MaxA=3, Budget=2): the
+   per-try timer callback of the first attempt is held before its CAS; the attempt is answered 503 (the answer wins the
+   CAS) and the worker is held as it wakes up (ds.woken); the global timer fires meanwhile and loses its CAS; the worker
+   goes on, a retry is admitted (which clears the flag), doRetry finds the global deadline passed, takes the give-up
+   exit and is held right after it cleared setupRetry (gate ds.retry.abort); the per-try callback now wins the CAS and
+   its reset is taken; the worker goes on: processError admits another retry for that reset and then drops the retry
+   state for the pending local reply. *)
+LateReset == << "hold:ds.ptimer.fire", "hold:ds.woken", "hold:ds.retry.abort",
+                "arrive:ds.ptimer.fire", "do:up503", "arrive:ds.woken", "await:ds.gtimer",
+                "release:ds.woken", "arrive:ds.retry.abort", "release:ds.ptimer.fire", "await:us.reset",
+                "release:ds.retry.abort" >>
+LateResetCases == { [cluster |-> cl, script |-> sc, try |-> TRUE, hold |-> "none", during |-> "none", hold2 |-> "none",
+                     steps |-> LateReset] : cl \in {"direct", "r1"}, sc \in {<<"gs503", "ok">>, <<"gs503", "hang">>} }
+StepCases == LateResetCases \cup { [cluster |-> cl, script |-> sc, try |-> (t = "ptimer"), hold |-> "none", during |-> "none", hold2 |-> "none",
                 steps |-> StaleTimer(t)] : cl \in {"r1", "r2"}, sc \in {<<"ok">>, <<"hang">>, <<"s503", "ok">>, <<"close">>}, t \in {"ptimer", "gtimer"} }
 
 VARIABLE c
